@@ -120,7 +120,11 @@ class Gen:
             return {"type": "array", "items": inner}, {"kind": "array", "items": e}
         if k == "inline_enum":
             vals = r.sample(["active", "inactive", "pending", "on-hold", "A", "b c"], r.randint(2, 4))
-            return {"type": "string", "enum": vals}, {"kind": "enum_inline", "values": vals}
+            node, e = {"type": "string", "enum": vals}, {"kind": "enum_inline", "values": vals}
+            if r.random() < 0.3:
+                node["default"] = e["default"] = r.choice(vals)     # an enum-typed field with a default member
+                self.features.add("enum_default")
+            return node, e
         if k == "ref":
             t = r.choice(objs)
             return ref(t), {"kind": "ref", "target": t}
@@ -537,6 +541,17 @@ class Gen:
                 self.features.add("json_media_variant")
             responses[primary] = {"description": "ok", "content": {jm: {"schema": sch}}}
             rexp[primary] = {"content": "json", "schema": e}
+            if r.random() < self.prof.get("p_multi_response_media", 0.0):
+                # several content types on ONE response: the server picks one per reply (Content-Type header)
+                objs2 = [o for o in self.objects() if o != e.get("target")]
+                if objs2 and r.random() < 0.5:
+                    t2 = r.choice(objs2)
+                    responses[primary]["content"]["application/vnd.alt+json"] = {"schema": ref(t2)}
+                    rexp[primary]["alt"] = [{"media": "application/vnd.alt+json", "content": "json", "schema": {"kind": "ref", "target": t2}}]
+                else:
+                    responses[primary]["content"]["text/plain"] = {"schema": {"type": "string"}}
+                    rexp[primary]["alt"] = [{"media": "text/plain", "content": "text"}]
+                self.features.add("multi_response_media")
         is_stream = rexp.get(primary, {}).get("content") in ("sse", "binary", "ndjson")
         if is_stream and "stream_with_secondary_2xx" in self.allow:
             self.features.add("stream_with_secondary_2xx")
